@@ -925,7 +925,8 @@ def evidence(stats, samples, plan, tier, seed, wall, nviol, known_hits, nworkers
                      "the kernel's file system (real files in a scratch directory)"],
             "stub": ["make_nuwiki (populates the directory with generated files)", "make_wiki_env_from_options / get_environment (dummy env)",
                      "the writer used by render.main (seeded write/flush/seek pattern)", "httpx client (scripted streaming responses)",
-                     "render.init_tmp_cleaner, load_writer, rate limiter, sleep"],
+                     "render.init_tmp_cleaner, load_writer, rate limiter, sleep",
+                     "the second producer of the `sibling` fault (the real Status / ZipCreator code, run from start to end between two calls of the first producer, not interleaved call by call)"],
         },
         "known_findings_hit": sorted({k["id"] for k in known_hits}),
         "workers": nworkers,
